@@ -58,6 +58,10 @@ def main():
         res = {"id": idn}
         # make sure the patch is applied
         subprocess.run(["git", "checkout", "--", "."], cwd=wt)
+        subprocess.run(["git", "checkout", "-q", "--detach", "main"], cwd=wt)
+        res["base"] = subprocess.run(["git", "rev-parse", "HEAD"], cwd=wt, capture_output=True, text=True).stdout.strip()
+        if os.path.exists(os.path.join(out, "patch.rebased.diff")):
+            patch = os.path.join(out, "patch.rebased.diff")
         a = subprocess.run(["git", "apply", patch], cwd=wt, capture_output=True, text=True)
         res["patch_applies"] = a.returncode == 0
         rc, o = sh(["cargo", "test", "--workspace", "--no-fail-fast", "--offline"], wt, env)
